@@ -848,15 +848,22 @@ func visitedGuarded(p *Prog, e *Edge) (bool, string) {
 	callee := e.Callee
 	args := site.Common().Args
 	for _, rb := range fn.Blocks {
-		ret, ok := rb.Instrs[len(rb.Instrs)-1].(*ssa.Return)
-		if !ok {
-			continue
-		}
 		isCirc := false
-		for ri := range ret.Results {
-			res := retValue(ret, ri)
-			if isErrorType(res.Type()) && wrapsSentinel(res, "ErrCircularRef", map[ssa.Value]bool{}) {
-				isCirc = true
+		if ret, ok := rb.Instrs[len(rb.Instrs)-1].(*ssa.Return); ok {
+			for ri := range ret.Results {
+				res := retValue(ret, ri)
+				if isErrorType(res.Type()) && wrapsSentinel(res, "ErrCircularRef", map[ssa.Value]bool{}) {
+					isCirc = true
+				}
+			}
+		}
+		// functions that keep their results in cells (defer, range-over-func loops) return by storing into the
+		// error cell and jumping to a shared exit
+		for _, in := range rb.Instrs {
+			if st, ok := in.(*ssa.Store); ok && isErrorType(st.Val.Type()) {
+				if _, isCell := st.Addr.(*ssa.Alloc); isCell && wrapsSentinel(st.Val, "ErrCircularRef", map[ssa.Value]bool{}) {
+					isCirc = true
+				}
 			}
 		}
 		if !isCirc {
